@@ -1,6 +1,6 @@
 (* Props/C05.v — property C05: which files are searched follows the documented precedence of filters.
    Only statements; every proof is one `exact`.  The Check lines pin the statements. *)
-From RG Require Import Base.Bytes Model.IgnoreDir Spec.FilterSpec Proofs.FilterProofs.
+From RG Require Import Base.Bytes Model.IgnoreDir Spec.FilterSpec Proofs.FilterProofs Proofs.RepoRootProofs.
 
 (* 1. Ignore::matched_dir_entry (overrides, the two scans of matched_ignore with any_git / saw_git and
       the parents gate, explicit files, global file, types, hidden) computes the documented fold
@@ -77,11 +77,28 @@ Print Assumptions file_name_pinned_refuted.
       a source that a flag switches off has no opinion; repository roots are recognised only when a
       repository is required and VCS rules are on.  For every flag set, command line, chain above the
       root, canonical root, non-empty chain below, path. *)
+Theorem decide_eq_world_as_read :
+  forall (f : lowflags) (w : world) (path : bytes) (is_dir : bool),
+    w_below w <> [] -> decide f w path is_dir = decide_world f (gitlink_exclude_world f w) path is_dir.
+Proof. exact decide_eq_world_gen_proof. Qed.
+Print Assumptions decide_eq_world_as_read.
+(* 5a. ... where "as the code reads it" differs from the world itself only in the class of the known finding
+      GitlinkExcludeNoRequire (--no-require-git given and some directory of the chain is the root of a linked
+      worktree, `.git` a gitfile: its repository's info/exclude is not found).  Outside that class: *)
 Theorem decide_eq_world :
   forall (f : lowflags) (w : world) (path : bytes) (is_dir : bool),
-    w_below w <> [] -> decide f w path is_dir = decide_world f w path is_dir.
+    w_below w <> [] -> ~ GitlinkExcludeNoRequire f w -> decide f w path is_dir = decide_world f w path is_dir.
 Proof. exact decide_eq_world_proof. Qed.
 Print Assumptions decide_eq_world.
+Example decide_eq_world_nonvacuous :
+  ~ GitlinkExcludeNoRequire gx_flags (gx_world GitDir) /\ ~ GitlinkExcludeNoRequire flags_default (gx_world GitFile).
+Proof. exact gx_outside_class. Qed.
+(* 5b. ... and inside it the statement is false *)
+Theorem decide_eq_world_all_refuted :
+  exists (f : lowflags) (w : world) (path : bytes) (is_dir : bool),
+    w_below w <> [] /\ decide f w path is_dir = MNone /\ decide_world f w path is_dir = MIgnore.
+Proof. exact decide_eq_world_all_refuted_proof. Qed.
+Print Assumptions decide_eq_world_all_refuted.
 
 (* 6. flag_removes_exactly_its_source, one per flag: giving the flag = the same decision in the world
       where that source carries no rules (everything else, including the other flags, unchanged) *)
@@ -118,7 +135,8 @@ Print Assumptions no_ignore_files_removes_ignore_files.
 Theorem hidden_removes_hidden_filter :
   forall f w path is_dir, w_below w <> [] ->
     decide (set_hidden true f) w path is_dir
-    = decide_spec (walk_builder_opts (set_hidden false f)) (unhide (wview (set_hidden false f) w path is_dir)).
+    = decide_spec (walk_builder_opts (set_hidden false f))
+                  (unhide (wview (set_hidden false f) (gitlink_exclude_world f w) path is_dir)).
 Proof. exact flag_hidden_proof. Qed.
 Print Assumptions hidden_removes_hidden_filter.
 (* --no-ignore = its five documented implications (it does not imply --no-ignore-files) *)
@@ -140,6 +158,46 @@ Theorem unrestricted_is_composition :
 Proof. exact flag_unrestricted_proof. Qed.
 Print Assumptions unrestricted_is_composition.
 
+(* 7. what counts as a repository root.  `.git` may be absent, a directory, or a gitfile (linked worktree,
+      submodule).  For every flag set, command line and directory, the node add_parents builds for a
+      directory above the search root and the node add_child_path builds for the same directory met
+      inside the tree carry the same has_git, and it is: repositories required, VCS rules on, and
+      `.git` present as a directory or a file. *)
+Theorem repo_root_test_uniform :
+  forall (f : lowflags) (c : cmdline) (d : dirinfo),
+    let sh := ig_sh (build_root (walk_builder_opts f) (walk_builder_env f c)) in
+    nd_has_git (parent_node sh d) = nd_has_git (child_node sh d)
+    /\ nd_has_git (child_node sh d) = (negb (f_no_require_git f) && negb (f_no_ignore_vcs f) && repo_marker (di_dotgit d)).
+Proof. exact repo_root_test_uniform_proof. Qed.
+Print Assumptions repo_root_test_uniform.
+
+(* 7a. the two file-system tests themselves both are "a directory or a gitfile" *)
+Theorem dotgit_tests_eq_marker :
+  forall k : dotgit, child_dotgit_test k = repo_marker k /\ parent_dotgit_test k = repo_marker k.
+Proof. exact dotgit_tests_eq_marker_proof. Qed.
+Print Assumptions dotgit_tests_eq_marker.
+
+(* 7b. library level: any option record in which git_exclude is not on while git_ignore is off *)
+Theorem repo_root_test_uniform_lib :
+  forall (sh : shared) (d : dirinfo),
+    (o_git_exclude (sh_opts sh) = true -> o_git_ignore (sh_opts sh) = true) ->
+    nd_has_git (parent_node sh d) = nd_has_git (child_node sh d).
+Proof. exact repo_root_test_uniform_lib_proof. Qed.
+Print Assumptions repo_root_test_uniform_lib.
+Example repo_root_test_uniform_lib_nonvacuous :
+  (o_git_exclude (sh_opts ex_sh_default) = true -> o_git_ignore (sh_opts ex_sh_default) = true)
+  /\ nd_has_git (child_node ex_sh_default (rr_dir GitFile)) = true
+  /\ nd_has_git (parent_node ex_sh_default (rr_dir GitFile)) = true
+  /\ nd_has_git (parent_node ex_sh_default (rr_dir GitAbsent)) = false.
+Proof. vm_compute. repeat split; reflexivity. Qed.
+
+(* 7c. ... and for all option records it is false: git_ignore(false) + git_exclude(true) (not reachable
+      from the command line) makes add_parents overlook every repository root *)
+Theorem repo_root_test_all_opts_refuted :
+  exists (sh : shared) (d : dirinfo), nd_has_git (parent_node sh d) <> nd_has_git (child_node sh d).
+Proof. exact repo_root_test_all_opts_refuted_proof. Qed.
+Print Assumptions repo_root_test_all_opts_refuted.
+
 (* non-vacuity: a shallow .rgignore ignore beats a deep .gitignore whitelist (source order dominates
    directory depth); chain = sub (has .gitignore `!a`) :: root (has .rgignore `a`, .git) :: builder root *)
 Definition ex_name_a : gmatcher := fun p _ => if bytes_eqb (skipn (after_last_slash p) p) [97]%N then MIgnore else MNone.
@@ -151,10 +209,10 @@ Definition ex_env : env :=
      e_explicit := []; e_custom_names_empty := false; e_global := g_empty |}.
 Definition ex_root_dir : dirinfo :=
   {| di_path := [114]%N; di_custom := ex_name_a; di_dotignore := g_empty; di_gitignore := g_empty;
-     di_exclude := g_empty; di_has_dotgit := true |}.
+     di_exclude := g_empty; di_dotgit := GitDir |}.
 Definition ex_sub_dir : dirinfo :=
   {| di_path := [114; 47; 115]%N; di_custom := g_empty; di_dotignore := g_empty; di_gitignore := ex_white_a;
-     di_exclude := g_empty; di_has_dotgit := false |}.
+     di_exclude := g_empty; di_dotgit := GitAbsent |}.
 Definition ex_ig : ignore := add_child (add_child (build_root ex_opts ex_env) ex_root_dir) ex_sub_dir.
 Example source_order_dominates_depth :
   matched_dir_entry ex_ig [114; 47; 115; 47; 97]%N false = MIgnore /\
@@ -168,6 +226,14 @@ Check matched_eq_spec :
 Check explicit_path_always_searched :
   forall (f : lowflags) (c : cmdline) (max_depth : option nat) (roots : list root) (p : bytes),
     In (RFile p) roots -> In p (rg_files f c max_depth roots).
+Check decide_eq_world_as_read :
+  forall (f : lowflags) (w : world) (path : bytes) (is_dir : bool),
+    w_below w <> [] -> decide f w path is_dir = decide_world f (gitlink_exclude_world f w) path is_dir.
 Check decide_eq_world :
   forall (f : lowflags) (w : world) (path : bytes) (is_dir : bool),
-    w_below w <> [] -> decide f w path is_dir = decide_world f w path is_dir.
+    w_below w <> [] -> ~ GitlinkExcludeNoRequire f w -> decide f w path is_dir = decide_world f w path is_dir.
+Check repo_root_test_uniform :
+  forall (f : lowflags) (c : cmdline) (d : dirinfo),
+    let sh := ig_sh (build_root (walk_builder_opts f) (walk_builder_env f c)) in
+    nd_has_git (parent_node sh d) = nd_has_git (child_node sh d)
+    /\ nd_has_git (child_node sh d) = (negb (f_no_require_git f) && negb (f_no_ignore_vcs f) && repo_marker (di_dotgit d)).
